@@ -161,6 +161,76 @@ def unique_input_rule(rep, F):
         rep.violation("UNIQUE-input", "create_send_all|duplicate-entry", "nothing between create_send_all and AssetCategorizer::new makes the supplied UTxO entries unique by input: an input listed twice is indexed twice, its value is counted twice and the returned transactions pay out more than the distinct UTxOs hold", {})
 
 
+def fee_model_rules(rep, F):
+    """three structural conditions of the batcher's fee fixed point and its final funds test"""
+    import mustpass as mp
+    from ruleutil import fields_read
+    # FEE-once ---------------------------------------------------------------------------------------------------------------
+    rep.rule("FEE-once", "the value handed to CborCalculator::estimate_fee as `dependable_amount` (from which the estimator subtracts the candidate fee) is gross of the fee: where it is built from TxProposal::get_unused_ada - which is already net of the stored fee - the stored fee is added back; otherwise every estimate after the first subtracts the fee twice and mis-judges the width of the last output's coin")
+    fid = find_fn(rep, F, "AssetCategorizer::estimate_fee")
+    gua = find_fn(rep, F, "TxProposal::get_unused_ada")
+    rec = find_fn(rep, F, "CborCalculator::recalc_size_with_dependable_value")
+    if fid and gua and rec:
+        rep.inst("FEE-once")
+        net_of_fee = any(f == "fee" for a, f in fields_read(F, gua, depth=1))
+        subtracts = any((c.to or "").endswith("BigNum::checked_sub") for c in F.calls(rec))
+        if not net_of_fee or not subtracts:
+            rep.lost("FEE-once premises changed (get_unused_ada reads fee: %s; estimator subtracts the fee: %s)" % (net_of_fee, subtracts))
+        else:
+            org = ff.Origins(F, fid)
+            fn = F.fns[fid]
+            cs = [c for c in F.calls(fid) if (c.to or "").endswith("CborCalculator::estimate_fee")]
+            if len(cs) != 1:
+                rep.lost("AssetCategorizer::estimate_fee: call of CborCalculator::estimate_fee not found")
+            else:
+                o = org.of_operand(fn["bbs"][cs[0].bb]["t"][3][2])
+                uses_unused = any(x.startswith("call:") and "get_unused_ada" in x for x in o)
+                adds_fee = any(x.startswith("call:") and x.split("@")[0].endswith("TxProposal::get_fee") for x in o) or any(x.endswith("TxProposal.fee") for x in o)
+                if uses_unused and not adds_fee:
+                    rep.violation("FEE-once", "AssetCategorizer::estimate_fee|dependable", "the dependable amount is get_unused_ada() + last output, i.e. net of the fee stored by the previous estimate, and the estimator subtracts the candidate fee again: with one pure-ADA UTxO of 2^32 + 170 000 lovelace the last output's coin is sized for a value below 2^32, the fee is 176 short and the transaction does not balance (every value in 2^32 + 165 281 .. 2^32 + 330 913)", {})
+    # PESS-full --------------------------------------------------------------------------------------------------------------
+    rep.rule("PESS-full", "the fallback of CborCalculator::estimate_fee (taken when the size fixed point oscillates at a coin-width boundary) is an upper bound of every size the iteration can produce: it adds the widest coin for the fee and, when a dependable value is present, the widest coin for that value too")
+    fid = find_fn(rep, F, "CborCalculator::estimate_fee")
+    if fid:
+        rep.inst("PESS-full")
+        fn = F.fns[fid]
+        org = ff.Origins(F, fid)
+        # the last min_fee_for_size call (after the loop) prices the fallback size
+        mf = [c for c in F.calls(fid) if (c.to or "").endswith("min_fee_for_size")]
+        loops = [c.bb for c in F.calls(fid) if (c.to or "").endswith("recalc_size_with_dependable_value")]
+        if not mf or not loops:
+            rep.lost("CborCalculator::estimate_fee: fallback pricing not found")
+        else:
+            last = max(mf, key=lambda c: c.bb)
+            o = org.of_operand(fn["bbs"][last.bb]["t"][3][0])
+            n_max = len({x for x in o if x.startswith("call:") and "get_coin_size" in x})
+            via_recalc = any(x.startswith("call:") and "recalc_size_with_dependable_value" in x for x in o)
+            if n_max < 2 and not via_recalc:
+                rep.violation("PESS-full", "CborCalculator::estimate_fee|fallback", "the fallback size adds one maximal coin (the fee) but the iteration also adds the coin of the dependable value: when the fixed point oscillates (last output within one fee of 2^32) the fallback fee is priced for a transaction 9 bytes shorter than the real one - fee 220 lovelace below the minimum for every value in 2^32 + 165 281 .. 2^32 + 165 456", {})
+    # BATCH-gate -------------------------------------------------------------------------------------------------------------
+    rep.rule("BATCH-gate", "TxBatchBuilder::build keeps a transaction proposal only on the zero edge of get_need_ada() evaluated after the final set_min_ada_for_tx: the final fee and minimum ada are covered by what the inputs hold")
+    fid = find_fn(rep, F, "TxBatchBuilder::build")
+    if fid:
+        rep.inst("BATCH-gate")
+        fn = F.fns[fid]
+        org = ff.Origins(F, fid)
+        pushes = [c for c in F.calls(fid) if (c.to or "").endswith("Vec::<T, A>::push") or (c.to or "").endswith("Vec::<T>::push")]
+        pushes = [c for c in pushes if any("TxProposal" in (fn["locals"][int(a[1].split("|")[0][1:])] if a[0] != "k" else "") for a in fn["bbs"][c.bb]["t"][3])]
+        finals = [c.bb for c in F.calls(fid) if (c.to or "").endswith("set_min_ada_for_tx")]
+        if not pushes or not finals:
+            rep.lost("TxBatchBuilder::build: proposal push / final fee pass not found")
+        for c in pushes:
+            ok = False
+            for s_, edge, d in mp.dominating_guards(F, fid, c.bb, org):
+                if d["kind"] == "call" and d["callee"].endswith("is_zero") and any("get_need_ada" in x for a in d["args"] for x in a):
+                    if (edge != "0") != d["neg"]:
+                        nb = [int(x.split("@")[1]) for a in d["args"] for x in a if x.startswith("call:") and "get_need_ada" in x]
+                        if nb and all(any(mp.dominated_by(fn, b_, f_) for f_ in finals) for b_ in nb):
+                            ok = True
+            if not ok:
+                rep.violation("BATCH-gate", "TxBatchBuilder::build|push", "a proposal is kept without testing get_need_ada() after the final fee pass: UTxO A = 1.2 ADA + 10 tok, UTxO B = 101 000 lovelace -> create_send_all returns Ok with outputs + fee 1 067 lovelace above the inputs (every B in 100 483 .. 102 066)", {})
+
+
 def check(rep, F, tier, replay=None):
     cddl = common.load_table("conway_cddl.json")
     inv = Inventory(F)
@@ -295,6 +365,7 @@ def check(rep, F, tier, replay=None):
                 rep.violation("TARGET", "%s|pass-through" % key, "%s no longer hands its address parameter through unchanged" % key, {})
     from ruleutil import cancel_rule
     cancel_rule(rep, F, ["src/builders/batch_tools/", "src/builders/tx_batch_builder.rs"])
+    fee_model_rules(rep, F)
     classify_all_rule(rep, F)
     unique_input_rule(rep, F)
     from ruleutil import arith_unused_rule
